@@ -655,7 +655,7 @@ func (r *Raft) AddServer(
 	}
 
 	// The provided node is already a part of the cluster.
-	if r.isMember(id) && r.isVoter(id) == isVoter {
+	if r.isMember(id) && r.isVoter(id) == isVoter && r.configuration.Members[id] == address {
 		respond(configurationFuture.responseCh, *r.configuration, nil)
 		return configurationFuture
 	}
